@@ -429,8 +429,14 @@ fn substitutes(e: &Env, s: &Store, k: &Pubkey) -> (String, Vec<Sub>) {
         if *k == e.fees_dest || *k == e.em_dest_u0 {
             return ("fixed_destination".into(), vec![Sub { what: "another token account of the same mint", key: if *k == e.fees_dest { w.users[1].tokens[&w.banks[0].mint] } else { e.em_funding }, forge: None }]);
         }
-        if *k == w.banks[0].fee_ata {
-            return ("global_fee_ata".into(), vec![Sub { what: "another token account of the same mint (not the canonical fee-wallet ATA)", key: w.users[1].tokens[&w.banks[0].mint], forge: None }]);
+        let live_wallet = world::fee_state(s).global_fee_wallet;
+        if *k == w.banks[0].fee_ata || *k == world::ata(&live_wallet, &w.banks[0].mint, &w.banks[0].token_program) {
+            let mut v = vec![Sub { what: "another token account of the same mint (not the canonical fee-wallet ATA)", key: w.users[1].tokens[&w.banks[0].mint], forge: None }];
+            if *k != w.banks[0].fee_ata {
+                // the global fee admin has rotated the wallet: the previous wallet's token account is no longer canonical
+                v.push(Sub { what: "the previous fee wallet's token account (not the canonical fee-wallet ATA any more)", key: w.banks[0].fee_ata, forge: None });
+            }
+            return ("global_fee_ata".into(), v);
         }
         return ("user_token_account(unprotected)".into(), vec![]);
     }
